@@ -394,6 +394,24 @@ def rule_A_TXN(ctx, repo, cache):
                         if (k.arg == 'isolation_level' and isinstance(k.value, ast.Constant) and k.value.value is None) or \
                                 (k.arg == 'autocommit' and isinstance(k.value, ast.Constant) and k.value.value is True):
                             auto = (mname, n.lineno)
+        # the connection keeps sqlite's busy timeout (5 s by default): a writer that meets another process between its INSERT and COMMIT waits.  A timeout
+        # option whose plumbing hands sqlite 0 when the option is not given (`float(timeout or 0)`) makes every such encounter an immediate
+        # "database is locked", and the entry of the second writer is lost
+        for mname, mfi in sorted(ci.methods.items()):
+            for n in ast.walk(mfi.node):
+                if isinstance(n, ast.Call) and isinstance(n.func, ast.Attribute) and n.func.attr == 'connect':
+                    for k in n.keywords:
+                        if k.arg != 'timeout':
+                            continue
+                        zero = any(isinstance(y, ast.BoolOp) and isinstance(y.op, ast.Or) and any(isinstance(v_, ast.Constant) and v_.value in (0, 0.0) and v_.value is not False
+                                                                                                     for v_ in y.values) for y in ast.walk(k.value)) \
+                            or (isinstance(k.value, ast.Constant) and isinstance(k.value.value, (int, float)) and k.value.value < 5)
+                        ctx.ob('A-TXN', '%s.%s: connect() keeps a busy timeout when none is configured' % (ci.label, mname), not zero)
+                        if zero:
+                            ctx.fail('A-TXN', mq(ci, mname), 'busy timeout defaults to %s' % unparse(k.value)[:30],
+                                     '%s.%s opens the connection with timeout=%s: when the option is not given sqlite is told not to wait at all (its own default is 5 s), so '
+                                     'a writer that arrives while another process is between its INSERT and its COMMIT fails at once with "database is locked" and its entry '
+                                     'is not stored' % (ci.label, mname, unparse(k.value)[:40]), wh(ci, n.lineno))
         # an explicit transaction that reads before it writes takes the write lock when it begins: a plain (deferred) BEGIN holds a SHARED lock after the
         # SELECT, and the upgrade at the INSERT fails with SQLITE_BUSY at once - without honouring the busy timeout - when another process wrote meanwhile
         import re as _re
@@ -863,6 +881,27 @@ def rule_A_RED_MEM(ctx, repo):
                      '%s resolves %s to a method that rebuilds the archive from its class and settings only (%s): the entries, which live in the dict itself, '
                      'are not part of the pickle - the clone of a cached function starts with an empty archive and recomputes what the original loads'
                      % (lab, h, ' '.join(unparse(fn).split())[:90]), '%s:%d' % (ci.methods[h].module.rel if hasattr(ci.methods[h], 'module') else m.rel, fn.lineno))
+    # default pickling of a dict subclass replays the items through the class's own __setitem__ BEFORE the instance __dict__ (and with it __state__) is
+    # restored: a writer of dict_archive that reads instance state (a read-only flag, a name) raises AttributeError while a non-empty archive is unpickled
+    ci = m.classes.get('dict_archive')
+    own = (ci.own_methods if hasattr(ci, 'own_methods') else ci.methods) if ci is not None else {}
+    if ci is not None and not any(h in ci.methods for h in ('__reduce__', '__reduce_ex__')):
+        for w in ('__setitem__', 'update', 'setdefault'):
+            fi_ = own.get(w)
+            if fi_ is None:
+                continue
+            selfn = fi_.node.args.args[0].arg
+            reach = [fi_.node] + [ci.methods[c.func.attr].node for c in ast.walk(fi_.node) if isinstance(c, ast.Call) and isinstance(c.func, ast.Attribute)
+                                  and isinstance(c.func.value, ast.Name) and c.func.value.id == selfn and c.func.attr in ci.methods and c.func.attr != w]
+            reads = [y for r_ in reach for y in ast.walk(r_) if isinstance(y, ast.Attribute) and isinstance(y.value, ast.Name) and y.value.id == r_.args.args[0].arg
+                     and y.attr in ('__state__', '__dict__', 'name', 'state')]
+            n += 1
+            ctx.ob('A-RED', 'dict_archive.%s reads no instance state (it runs before the state is restored on unpickling)' % w, not reads)
+            if reads and w == '__setitem__':
+                ctx.fail('A-RED', mq(ci, w), 'item writer reads instance state',
+                         'dict_archive.%s reads `self.%s`: dict_archive pickles by the default protocol for dict subclasses, which re-inserts the items through this '
+                         'method before the instance attributes exist - unpickling a non-empty in-memory archive (and every cached function that holds one) raises '
+                         'AttributeError' % (w, reads[0].attr), '%s:%d' % (m.rel, reads[0].lineno))
     # the sqlite archives default to the database ':memory:', which lives in the connection: a pickling hook that "reconnects" by (database, table) opens
     # a new, empty in-memory database for the clone.  (Today they define no hook and cannot be pickled at all - a loud TypeError, not a silent loss.)
     for lab in ('sqltable_archive[!sql]', 'sql_archive[!sql]'):
@@ -1743,6 +1782,32 @@ def rule_A_VIS_STAGE(ctx, repo, cache, props_note=''):
                      '%s._store renames the entry being replaced to %s, a name that still matches the lister pattern "%s": until it is removed (and for ever if the writer '
                      'is killed first) every reader lists a key that was never stored - keys(), len() and iteration disagree with what was written' % (lab, render(D)[:70], pat),
                      wh(ci, e.line), render_path(o))
+        # A-VIS (entries appear complete): a writer creates nothing under a listed name except by the publishing rename.  A directory made under the entry's
+        # own name before the staged contents exist (`self._mkdir(key)` as an early "is the key usable" probe) is listed as a key from that moment on;
+        # a writer killed before the rename leaves an empty entry that every reader trips over
+        early = None
+        for wname in ('__setitem__', 'update', 'setdefault'):
+            try:
+                wfi, wouts, _e = cache.outs(ci, wname)
+            except AnalysisError:
+                continue
+            if wfi is None:
+                continue
+            for o in wouts:
+                for e in o.st.events:
+                    if e.kind == 'MKDIR' and e.args and on_self_store(e.args[0]) and '_store' not in (getattr(e, 'extra', None) or {}).get('frames', ()):
+                        b = basename_term(e.args[0])
+                        pre, ex = aprefix(b)
+                        mm = match3(pre, ex, pat)
+                        if mm is not False and pre and not any(pre.startswith(x) for x in excl) and early is None:
+                            early = (wname, o, e)
+        ctx.ob('A-VIS', '%s: no writer creates a directory under a listed name' % lab, early is None)
+        if early is not None:
+            wname, o, e = early
+            ctx.fail('A-VIS', mq(ci, wname), 'entry directory created before its contents',
+                     '%s.%s creates %s - a name the lister pattern "%s" matches - directly, not by renaming a completed staging copy into place: from that moment the key is '
+                     'listed although it has no contents, and a writer killed before the publishing rename leaves an entry that keys() reports and reading raises KeyError for'
+                     % (lab, wname, render(e.args[0])[:80], pat), wh(ci, e.line), render_path(o))
         # A-VIS (one lister): whatever enumerates the archive directory applies the entry pattern.  A count or listing taken with os.scandir / os.listdir /
         # os.walk / glob on the root itself also sees the staging directories of writes in progress (and those a killed writer left): len() and truthiness
         # then disagree with keys()
